@@ -835,7 +835,7 @@ def cmwpm_configs(ctx):
             out.append(D('PlanarCMWPM', box_shape=bs, distance_algorithm=da))
     for f in (0, 0.5, 1, 2, 10.0, 1e200, 1e-200, float('inf')):
         out.append(D('PlanarCMWPM', factor=f, max_iterations=3))
-    extra = 6 if q else 40
+    extra = 6 if q else 30
     for _ in range(extra):
         out.append(D('PlanarCMWPM', factor=ctx.rng.choice([0, 0.25, 1, 3, 3.5, 7, 100]),
                      max_iterations=ctx.rng.choice([1, 2, 3, 4, 5, 9]), box_shape=ctx.rng.choice('trfl'),
@@ -993,8 +993,8 @@ def planar_y_cases(ctx, spec, table, all_w2=True):
                              singles=(not q and n <= 100))
     if exh:
         return cases, True
-    extra = boundary_subset_errors(ctx, spec, 'Y', all_upto=2, cap3=((16 if table else 6) if q else 30),
-                                   n_more=((3 if table else 2) if q else 6))
+    extra = boundary_subset_errors(ctx, spec, 'Y', all_upto=2, cap3=((16 if table else 6) if q else 24),
+                                   n_more=((3 if table else 2) if q else 4))
     if q and not all_w2:  # quick: all weight-<=2 rim errors on the small sizes and a seed-rotated half of the table class
         w2 = [c for c in extra if c[1] == 'rim-w2']
         extra = [c for c in extra if c[1] != 'rim-w2'] + ctx.rng.sample(w2, min(len(w2), 40))
@@ -1004,7 +1004,7 @@ def planar_y_cases(ctx, spec, table, all_w2=True):
             if w <= n:
                 extra.append((random_error(ctx.rng, n, w, True), 'w%d' % w))
     if q or n > 100:  # weight 1: the rim (above) + sampled interior qubits; thorough, n <= 100: all (error_cases)
-        for qb in ctx.rng.sample(range(n), min(n, 12 if q else 60)):
+        for qb in ctx.rng.sample(range(n), min(n, 12 if q else 40)):
             e = np.zeros(2 * n, dtype=int); e[qb] = 1; e[n + qb] = 1
             extra.append((e, 'w1'))
     seen = set(bits(e) for e, _, _ in cases)
